@@ -1,0 +1,165 @@
+//go:build verif
+
+// Contracts for the verification machinery in /verif (comment only, no code).
+// Language: /verif/DESIGN.md section 3.1.
+//
+// The history is specified without ghost state: the event with id i (lowestId <= i < id) is the slice
+// element at evpos(e, i), counted back from head (linear, no modulo); id2pos is proved to compute exactly
+// that position from its modular formula, and every operation is specified by what it does to ev(e, i).
+package events
+
+//@ spec evpos(e *eventRingBuffer, i int) int = e.head >= e.id - i ? e.head - (e.id - i) : e.head + e.capacity - (e.id - i)
+//@ spec ev(e *eventRingBuffer, i int) *si.EventRecord = e.events[evpos(e, i)]
+//@ spec stored(e *eventRingBuffer) int = e.id - e.lowestId
+
+//@ invariant eventRingBuffer as inv(e): e != nil && e.capacity == len(e.events) && e.capacity > 0 && e.capacity < 4611686018427387904
+//@ invariant[head] eventRingBuffer as inv(e): e.head < e.capacity
+//@ invariant[ids] eventRingBuffer as inv(e): e.lowestId <= e.id && e.id - e.lowestId <= e.capacity && e.resizeOffset <= e.lowestId
+//@ invariant[full] eventRingBuffer as inv(e): e.full <==> (e.id - e.lowestId == e.capacity)
+//@ invariant[notfull] eventRingBuffer as inv(e): !e.full ==> e.head == e.id - e.lowestId
+//@ invariant[headmod] eventRingBuffer as inv(e): e.head == mod(e.id - e.resizeOffset, e.capacity)
+//@ invariant[room] eventRingBuffer as inv(e): e.id < 9223372036854775807
+
+// (x mod c) + 1 and x + 1 agree modulo c: the step of Add
+//@ lemma modsucc(x int, c int)
+//@   props C20
+//@   hyp x >= 0 && c > 0
+//@   concl mod(mod(x, c) + 1, c) == mod(x + 1, c)
+
+// position of the event d places behind the head: the modular formula of id2pos equals the linear evpos
+//@ lemma modback(x int, d int, c int)
+//@   props C20
+//@   hyp c > 0 && d >= 1 && d <= c && x - d >= 0
+//@   concl mod(x - d, c) == (mod(x, c) >= d ? mod(x, c) - d : mod(x, c) + c - d)
+
+//@ func newEventRingBuffer(capacity uint64) (e *eventRingBuffer)
+//@   props C20
+//@   requires capacity > 0 && capacity < 4611686018427387904
+//@   assigns nothing
+//@   ensures fresh(e) && inv(e) && e.id == 0 && e.lowestId == 0 && e.capacity == capacity
+
+//@ func (e *eventRingBuffer) getLowestID() (r uint64)
+//@   props C20
+//@   pure
+//@   requires e != nil
+//@   ensures r == e.lowestId
+
+//@ func (e *eventRingBuffer) getLastEventID() (r uint64)
+//@   props C20
+//@   pure
+//@   requires e != nil
+//@   ensures r == (e.id == 0 ? 0 : e.id - 1)
+
+//@ func (e *eventRingBuffer) Add(event *si.EventRecord)
+//@   props C20
+//@   requires inv(e) && e.id < 9223372036854775806
+//@   use modsucc(e.id - e.resizeOffset, e.capacity)
+//@   assigns e.events[*], e.full, e.lowestId, e.head, e.id
+//@   ensures inv(e)
+//@   ensures[nextid] e.id == old(e.id) + 1 && ev(e, old(e.id)) == event
+//@   ensures[window] e.lowestId == max(old(e.lowestId), e.id - e.capacity) && e.capacity == old(e.capacity)
+//@   ensures[retained] forall i int :: e.lowestId <= i && i < old(e.id) ==> ev(e, i) == old(ev(e, i))
+
+//@ func (e *eventRingBuffer) id2pos(id uint64) (pos uint64, found bool)
+//@   props C20
+//@   pure
+//@   requires inv(e)
+//@   use modback(e.id - e.resizeOffset, e.id - id, e.capacity)
+//@   ensures found <==> (e.lowestId <= id && id < e.id)
+//@   ensures found ==> pos == evpos(e, id) && pos < e.capacity
+//@   ensures !found ==> pos == 0
+
+//@ func (e *eventRingBuffer) getEntriesFromRanges(r1, r2 *eventRange) (dst []*si.EventRecord)
+//@   props C20
+//@   requires inv(e) && r1 != nil && r1.start <= r1.end && r1.end <= e.capacity
+//@   requires r2 != nil ==> r2.start <= r2.end && r2.end <= e.capacity
+//@   assigns nothing
+//@   ensures len(dst) == (r1.end - r1.start) + (r2 == nil ? 0 : r2.end - r2.start)
+//@   ensures forall j int :: 0 <= j && j < r1.end - r1.start ==> dst[j] == e.events[r1.start + j]
+//@   ensures r2 != nil ==> (forall j int :: 0 <= j && j < r2.end - r2.start ==> dst[(r1.end - r1.start) + j] == e.events[r2.start + j])
+
+//@ func (e *eventRingBuffer) getEventsFromID(id uint64, count uint64) (res []*si.EventRecord, lowest uint64, last uint64)
+//@   props C20
+//@   requires inv(e)
+//@   assigns nothing
+//@   ensures lowest == e.lowestId && last == (e.id == 0 ? 0 : e.id - 1)
+//@   ensures[outside] !(e.lowestId <= id && id < e.id) ==> res == nil
+//@   ensures[count] e.lowestId <= id && id < e.id ==> len(res) == min(count, e.id - id)
+//@   ensures[exact] e.lowestId <= id && id < e.id ==> (forall j int :: 0 <= j && j < len(res) ==> res[j] == ev(e, id + j))
+
+//@ func (e *eventRingBuffer) GetEventsFromID(id uint64, count uint64) (res []*si.EventRecord, lowest uint64, last uint64)
+//@   props C20
+//@   requires inv(e)
+//@   assigns nothing
+//@   ensures lowest == e.lowestId && last == (e.id == 0 ? 0 : e.id - 1)
+//@   ensures[outside] !(e.lowestId <= id && id < e.id) ==> res == nil
+//@   ensures[count] e.lowestId <= id && id < e.id ==> len(res) == min(count, e.id - id)
+//@   ensures[exact] e.lowestId <= id && id < e.id ==> (forall j int :: 0 <= j && j < len(res) ==> res[j] == ev(e, id + j))
+
+//@ func (e *eventRingBuffer) GetRecentEvents(count uint64) (res []*si.EventRecord)
+//@   props C20
+//@   requires inv(e)
+//@   assigns nothing
+//@   ensures[count] len(res) == min(count, stored(e))
+//@   ensures[exact] forall j int :: 0 <= j && j < len(res) ==> res[j] == ev(e, e.id - len(res) + j)
+
+//@ func (e *eventRingBuffer) GetLastEventID() (r uint64)
+//@   props C20
+//@   pure
+//@   requires e != nil
+//@   ensures r == (e.id == 0 ? 0 : e.id - 1)
+
+//@ func (e *eventRingBuffer) updateLowestID(beginSize, endSize uint64)
+//@   props C20
+//@   requires e != nil && e.lowestId <= e.id
+//@   assigns e.lowestId
+//@   ensures e.lowestId == (beginSize >= endSize && e.id - old(e.lowestId) > endSize ? e.id - endSize : old(e.lowestId))
+
+//@ func (e *eventRingBuffer) Resize(newSize uint64)
+//@   props C20
+//@   requires inv(e) && newSize > 0 && newSize < 4611686018427387904
+//@   assigns e.events, e.capacity, e.head, e.resizeOffset, e.full, e.lowestId
+//@   ensures inv(e)
+//@   ensures[ids] e.id == old(e.id) && e.capacity == newSize
+//@   ensures[window] e.lowestId == max(old(e.lowestId), e.id - newSize)
+//@   ensures[retained] forall i int :: e.lowestId <= i && i < e.id ==> ev(e, i) == old(ev(e, i))
+
+// ---------------------------------------------------------------- EventStore (batch handed to the shim)
+
+//@ invariant EventStore as inv(es): es != nil && es.idx <= len(es.events)
+
+//@ func newEventStore(size uint64) (es *EventStore)
+//@   props C20
+//@   requires size < 4611686018427387904
+//@   assigns nothing
+//@   ensures fresh(es) && inv(es) && es.idx == 0 && len(es.events) == size && es.size == size && es.lastSize == size
+
+//@ func (es *EventStore) Store(event *si.EventRecord)
+//@   props C20
+//@   requires inv(es)
+//@   assigns es.events[*], es.idx
+//@   ensures inv(es)
+//@   ensures[append] old(es.idx) < len(es.events) ==> es.idx == old(es.idx) + 1 && es.events[old(es.idx)] == event
+//@   ensures[drop] old(es.idx) == len(es.events) ==> es.idx == old(es.idx)
+//@   ensures[keep] forall j int :: 0 <= j && j < old(es.idx) ==> es.events[j] == old(es.events[j])
+
+//@ func (es *EventStore) CollectEvents() (messages []*si.EventRecord)
+//@   props C20
+//@   requires inv(es) && es.size < 4611686018427387904
+//@   assigns es.events, es.idx, es.lastSize
+//@   ensures inv(es) && es.idx == 0
+//@   ensures[batch] len(messages) == old(es.idx) && len(messages) <= old(len(es.events))
+//@   ensures[exact] forall j int :: 0 <= j && j < len(messages) ==> messages[j] == old(es.events[j])
+//@   ensures[resize] len(es.events) == (old(es.size) != old(es.lastSize) ? old(es.size) : old(len(es.events)))
+
+//@ func (es *EventStore) SetStoreSize(size uint64)
+//@   props C20
+//@   requires es != nil
+//@   assigns es.size
+//@   ensures es.size == size
+
+//@ func getRingBufferCapacity() (c uint64)
+//@   props C20
+//@   assigns nothing
+//@   ensures c > 0
+
